@@ -565,6 +565,22 @@ def loop_var_value_exact(prog, chk):
                 sty = (cal.self_ty or "") + " " + " ".join(cal.targs or []) + " " + (cal.inst or "")
                 if not ok and re.search(r"(^|[ <])f64([ >]|$)", sty) and "f32" not in sty:
                     ok = True
+        if not ok and o[0] == "unknown" and isinstance(o[1], tuple) and o[1] and isinstance(o[1][0], int):
+            # the payload of an Option / Result local: where the local's values come from
+            srcs = []
+            for d in b.defs_of(o[1][0]):
+                if d[1] == R.TERM and "fn" in d[2]:
+                    srcs.append(Callee(d[2]["fn"]).path)
+                elif d[1] != R.TERM and d[2].get("k") == "aggr" and d[2].get("variant") == "None":
+                    continue
+                elif d[1] != R.TERM and d[2].get("k") == "use":
+                    p2, _o2 = R.call_origin_path(b, d[2]["op"])
+                    srcs.append(p2 or "?")
+                else:
+                    srcs.append("?")
+            if srcs and "?" not in srcs and not any(x.split("::")[-1] in ("fstr", "format", "to_string") or "fmt" in x for x in srcs):
+                chk.bad("A13.loop-var-exact", f"LoopElement:set_var#{n}", b.where(bb, t.get("line")), f"the loop variable is also set to a value that is not the accumulator's rendering: it comes from {sorted(set(srcs))} - after (or during) the loop the variable no longer holds what the unrolled loop leaves in it")
+                continue
         if not ok and not (o[0] == "call" and "fn" in o[2] and (Callee(o[2]["fn"]).path.split("::")[-1] in ("fstr", "format", "to_string") or "fmt" in Callee(o[2]["fn"]).path)):
             # the value handed to set_var cannot be traced to the call that renders it (it travels through a struct
             # field, a helper's parameter ...): no verdict on how it was rendered
